@@ -77,8 +77,8 @@ func (f *Merge) Call(s *slip.Scope, args slip.List, depth int) (result slip.Obje
 	default:
 		slip.TypePanic(s, depth, "result-type", ta, "nil", "list", "string", "vector", "octets")
 	}
-	seq1 := slip.CoerceToList(args[1]).(slip.List)
-	seq2 := slip.CoerceToList(args[2]).(slip.List)
+	seq1, _ := slip.CoerceToList(args[1]).(slip.List) // nil is the empty list
+	seq2, _ := slip.CoerceToList(args[2]).(slip.List) // nil is the empty list
 	d2 := depth + 1
 	var (
 		keyFunc   slip.Caller
